@@ -45,7 +45,7 @@ func init() {
 		ID: "C08",
 		Explanation: "Decides the absence of the enumerable nondeterminism sources on paths that produce output or diagnostics (necessary conditions of byte-identical builds, not the behaviour): R1 every `range` over a map in non-test code is order-insensitive (commutative body, collect-then-sort, located-diagnostics-only) or a reviewed entry; R2 goroutines deliver results by pre-assigned index or into sorted collections, never by completion order; R3 sort comparators and hash inputs never use unstable source indices; R4 clock/random/environment reads occur only at the reviewed owner sites; R5 no multi-way select on build paths; R6 no location-less diagnostic is logged from concurrently running goroutines. R3 also decides (c) that no raw source index is stored into an integer field a comparator reads and (d) that no decision is taken on the size of the source-index table. R9 goroutine-private-slots: goroutines started in a loop store into shared slices only at elements selected by their own per-iteration parameters (interprocedural element-store summaries). R10 process-wide-state-immutable: E-GLOB. NOT covered: totality of sort comparators, absolute-path independence (paths are run-time values), determinism of plugin code.",
 		Run: func(p *Prog, tier string) []*RuleResult {
-			return []*RuleResult{c08MapOrder(p), c08GoroutineOrder(p), c08UnstableKeys(p), c08Ambient(p), c08Select(p), c08LoggerOrder(p), c08SerializedUpdate(p), renamed(c09Frozen(p), "C08/R8 shared-ast-immutability", "linkers of different entry points run in parallel over one parsed AST: a post-parse store into AST memory that was not cloned for this link makes the output depend on scheduling (same analysis as C09/R2)"), goroutinePrivateSlots(p, "C08/R9 goroutine-private-slots"), globalSharedImmutability(p, "C08/R10 process-wide-state-immutable")}
+			return []*RuleResult{c08MapOrder(p), c08GoroutineOrder(p), c08UnstableKeys(p), c08Ambient(p), c08Select(p), c08LoggerOrder(p), c08SerializedUpdate(p), renamed(c09Frozen(p), "C08/R8 shared-ast-immutability", "linkers of different entry points run in parallel over one parsed AST: a post-parse store into AST memory that was not cloned for this link makes the output depend on scheduling (same analysis as C09/R2)"), goroutinePrivateSlots(p, "C08/R9 goroutine-private-slots"), globalSharedImmutability(p, "C08/R10 process-wide-state-immutable"), c08RangeSelfMutation(p)}
 		},
 	})
 }
@@ -1033,4 +1033,136 @@ func checkLiteralKeys(p *Prog, pkgPath, varName, mode string) string {
 		}
 	}
 	return ""
+}
+
+// C08/R11 a range loop does not store into other elements of the slice it ranges over.
+//
+// `for i, v := range xs` fixes the length of xs when the loop starts but reads each element when
+// its turn comes. A store into xs[j] for some other j inside the loop is therefore seen by the
+// loop if j is still ahead and not seen if j was already passed — and whether a freshly allocated
+// j is ahead or behind depends on how the indices were handed out. In the scanner the indices are
+// source indices, which an incremental context caches across builds: the JavaScript stub generated
+// for a CSS file gets an index beyond the table on a fresh build (never visited) but a cached, lower
+// index on a rebuild (visited, and given a second entry in the metafile's inputs).
+// Rule: inside the body of a range loop over a slice-typed field, no store into an element of the
+// same field at an index other than the loop's own index — unless the loop skips such elements
+// explicitly (reviewed) or the function returns/breaks right after.
+var c08RangeSelfMutationExceptions = ExcTable{}
+
+func c08RangeSelfMutation(p *Prog) *RuleResult {
+	r := NewRule("C08/R11 range-self-mutation", "a range loop over a slice does not store into other elements of the same slice (whether the loop then sees the new element depends on whether its index is ahead of or behind the current position — for source indices: on the history of the context)")
+	n := 0
+	for _, fn := range p.ModuleFuncs() {
+		if !strings.HasPrefix(pkgPathOf(fn), modPath+"/internal/") {
+			continue
+		}
+		loops := naturalLoops(fn)
+		for header, body := range loops {
+			// the range index phi and the ranged slice: len(X) evaluated before the loop, X loaded from a field
+			var idx *ssa.Phi
+			for _, in := range header.Instrs {
+				if ph, ok := in.(*ssa.Phi); ok && ph.Comment == "rangeindex" {
+					idx = ph
+				}
+			}
+			if idx == nil {
+				continue
+			}
+			// the field path of the ranged slice: IndexAddr in the body indexed by idx+1
+			rangedField := ""
+			var own ssa.Value
+			for b := range body {
+				for _, in := range b.Instrs {
+					ia, ok := in.(*ssa.IndexAddr)
+					if !ok {
+						continue
+					}
+					bo, ok := ia.Index.(*ssa.BinOp)
+					if !ok || bo.Op != token.ADD || bo.X != ssa.Value(idx) {
+						continue
+					}
+					if o, f, ok := loadedField(ia.X); ok {
+						rangedField = o + "." + f
+						own = bo
+					}
+				}
+			}
+			if rangedField == "" {
+				continue
+			}
+			n++
+			for b := range body {
+				for _, in := range b.Instrs {
+					st, ok := in.(*ssa.Store)
+					if !ok {
+						continue
+					}
+					// a store whose address is (a field of) xs[j], j != own index, whole-element stores only
+					ia, ok := st.Addr.(*ssa.IndexAddr)
+					if !ok {
+						continue
+					}
+					o, f, ok := loadedField(ia.X)
+					if !ok || o+"."+f != rangedField || ia.Index == own {
+						continue
+					}
+					// in-place compaction (`xs[end] = x; end++` with end starting at 0): the write
+					// cursor never gets ahead of the read cursor, so the loop never re-reads what it wrote
+					if isCompactionCursor(ia.Index) {
+						continue
+					}
+					// the slot is grown by append in the same statement sequence? (xs = append(xs, …) is a different shape)
+					r.Instances++
+					key := FuncName(fn) + " range over " + rangedField + " stores another element"
+					if !r.CheckExc(c08RangeSelfMutationExceptions, key) {
+						r.Fail(key, p.Pos(st.Pos()), "the loop over "+rangedField+" stores into another element of the same slice: the loop visits the new element only if its index is ahead of the current position, which for cached source indices depends on earlier builds of the context (a rebuild then differs from a fresh build)")
+					}
+				}
+			}
+		}
+	}
+	r.Anchor("range loops over slice-typed fields", n >= 20)
+	if r.Instances == 0 {
+		r.Instances++
+		r.OK("no range loop stores into other elements of the slice it ranges over", true, fmt.Sprintf("%d range loops over slice-typed fields examined", n))
+	}
+	r.StaleCheck(c08RangeSelfMutationExceptions)
+	return r
+}
+
+// isCompactionCursor: v is a counter that starts at 0 and only ever grows by 1 per store
+// (phi [0, v+1, v]) — the write index of an in-place filter.
+func isCompactionCursor(v ssa.Value) bool {
+	ph, ok := v.(*ssa.Phi)
+	if !ok {
+		return false
+	}
+	seen := map[ssa.Value]bool{}
+	var okEdge func(e ssa.Value, depth int) bool
+	okEdge = func(e ssa.Value, depth int) bool {
+		if depth > 6 || seen[e] {
+			return true
+		}
+		seen[e] = true
+		switch x := e.(type) {
+		case *ssa.Const:
+			i, ok := constInt(x)
+			return ok && i == 0
+		case *ssa.BinOp:
+			if x.Op != token.ADD {
+				return false
+			}
+			one, ok := constInt(x.Y)
+			return ok && one == 1 && okEdge(x.X, depth+1)
+		case *ssa.Phi:
+			for _, ee := range x.Edges {
+				if !okEdge(ee, depth+1) {
+					return false
+				}
+			}
+			return true
+		}
+		return false
+	}
+	return okEdge(ph, 0)
 }
